@@ -56,6 +56,32 @@ Definition op_bigrest (ts : list wtok) : list wtok :=
          | x => w_pres w_parsed x
          end).
 
+(* 35 BIGJUNK: n filler bytes (one repeated value), a storage-header message, a suffix.  The model does not build
+   the junk: a constant string contains no DLT\x01 (its four bytes differ), so by c06_search the search reports n
+   and by c06_junk parsing gives what parsing message ++ suffix gives. *)
+Definition op_bigjunk (ts : list wtok) : list wtok :=
+  run_rd (rlet n := r_n in rlet fill := r_n in rlet m := r_msg in rlet suffix := r_bytes in rret (n, fill, m, suffix)) ts
+    (fun '(n, _, m, suffix) =>
+    let wf := wf_message m && has_storage m in
+    w_bool wf ++
+    if negb wf then []
+    else if message_bytes_overflows m then [WN 1]
+    else
+      let x := message_bytes m ++ suffix in
+      WN 0 :: [WN 1; WN n; WN (len x)] ++ w_pres w_parsed (dlt_message x None true)).
+
+(* 36 JUNKCUT: junk ++ the first k bytes of a storage-header message *)
+Definition op_junkcut (ts : list wtok) : list wtok :=
+  run_rd (rlet j := r_bytes in rlet m := r_msg in rlet k := r_n in rret (j, m, k)) ts (fun '(j, m, k) =>
+    let wf := wf_message m && has_storage m in
+    w_bool wf ++
+    if negb wf then []
+    else if message_bytes_overflows m then [WN 1]
+    else
+      let bs := message_bytes m in
+      let k' := N.min k (len bs - 1) in
+      WN 0 :: w_pres w_parsed (dlt_message (j ++ firstn (N.to_nat k') bs) None true)).
+
 (* 21 PARSE_USE: parse hostile bytes and use the result (C03) *)
 Definition args_of (m : message) : list argument :=
   match m_payload m with PVerbose args => args | _ => [] end.
@@ -265,16 +291,24 @@ Definition w_outcome (o : outcome) : list wtok :=
   | OPanic => [WN 9]
   end.
 Definition cap_of (c : N) : N := if c =? 0 then default_cap else N.max c message_max_len.
-Definition r_reader_case : rd (bool * option filter_config * N * list N * list byte) :=
-  rlet sh := r_bool in rlet f := r_opt r_filter in rlet c := r_n in rlet sched := r_list r_n in
-  rlet s := r_bytes in rret (sh, f, c, sched, s).
+Definition r_reader_case : rd (bool * option filter_config * N * N * list N * list byte) :=
+  rlet sh := r_bool in rlet f := r_opt r_filter in rlet c := r_n in rlet mml := r_n in rlet sched := r_list r_n in
+  rlet s := r_bytes in rret (sh, f, c, mml, sched, s).
+(* DltMessageReader::with_capacity(cap, message_max_len, ..): the scratch buffer has message_max_len bytes
+   (0 = the default 16 + 65535; the theorems of C07/C08 are about the default) *)
+Definition reader_of (mml : N) (sigma : list N) (s : list byte) : reader bufreader :=
+  if mml =? 0 then new_reader sigma s
+  else mkReader (mkBR [] (mkSrc sigma s)) (repeat x00 (N.to_nat mml)).
+Definition cap_mml (c mml : N) : N := if mml =? 0 then cap_of c else N.max (cap_of c) mml.
 Definition op_read (ts : list wtok) : list wtok :=
-  run_rd r_reader_case ts (fun '(sh, f, c, sched, s) =>
-    let '(l, fin) := reader_run_cap (cap_of c) sched s (option_map process_filter f) sh in
+  run_rd r_reader_case ts (fun '(sh, f, c, mml, sched, s) =>
+    let '(l, fin) := run_with (br_read_exact (cap_mml c mml)) true (length s + 1) (option_map process_filter f) sh
+                       (reader_of mml sched s) in
     w_list w_outcome l ++ w_bool fin).
 Definition op_async (ts : list wtok) : list wtok :=
-  run_rd r_reader_case ts (fun '(sh, f, c, sched, s) =>
-    let '(l, fin) := async_run_cap (cap_of c) sched s (option_map process_filter f) sh in
+  run_rd r_reader_case ts (fun '(sh, f, c, mml, sched, s) =>
+    let '(l, fin) := run_with (abr_read_exact (cap_mml c mml)) true (length s + 1) (option_map process_filter f) sh
+                       (reader_of mml sched s) in
     w_list w_outcome l ++ w_bool fin).
 
 (* 60 SPECDEC / 61 SPECENC: the independent reference codec of Spec/Layout.v (C02) *)
@@ -351,6 +385,8 @@ Definition run_case (op : N) (ts : list wtok) : list wtok :=
   | 32 => op_stats ts
   | 33 => op_scan ts
   | 34 => op_bigrest ts
+  | 35 => op_bigjunk ts
+  | 36 => op_junkcut ts
   | 40 => op_read ts
   | 41 => op_async ts
   | 42 => run_rd r_arg ts (fun a => w_chk (w_opt w_n) (to_real_value a))
